@@ -689,6 +689,15 @@ def tie_params(rng, names, variant):
     return _with(names, base, **kw), forced
 
 
+# the zero-rate groups of the 3-population models run with halved durations on a coarser grid (a 3-population swap group in the
+# regime of draw_swap_params costs 0.2 - 1.8 s); calibrated separately, see tie_groups
+PTS_SHORT = {3: 8}
+
+
+def shorten(names, p):
+    return [v * 0.5 if pclass(n) == 'T' else v for n, v in zip(names, p)]
+
+
 def zero_sets(nm):
     """The variants 'zero:...' of a model with nm migration-rate parameters: each single rate, then each pair."""
     return ['zero:%d' % i for i in range(nm)] + ['zero:%d+%d' % (i, j) for i in range(nm) for j in range(i + 1, nm)]
@@ -700,7 +709,13 @@ def tie_groups(ctx, rng):
              two-population models, at one further variant in rotation (thorough: every variant) - with equal sizes and unequal rates
              the swapped call differs from the original in the rates only
       nest   the nestings with the free parameters tied (quick: the first nesting of every model as A, variants in rotation; thorough: all)
-      model  the full clause set at the 'sizes' vector for every model that is not closed under a relabelling"""
+      model  the full clause set at the 'sizes' vector for every model that is not closed under a relabelling
+      zero   (own generator seed + 1501) swap groups with named migration rates exactly 0.0 at an otherwise generic vector, cycling over WHICH
+             rate: quick - every 3-population model of the swap table one single rate and one pair (position advancing from model to model),
+             Demographics3D.out_of_africa (the only model on the variable-parameter 3-population kernels) every single rate and every pair;
+             thorough - every relabelling of every 3-population model with every single rate and every pair.  They run with halved
+             durations at pts 8 (shorten, PTS_SHORT).  Calibration 2026-10-04, clean tree: 330 such groups (every 3-population relabelling x
+             zero set x 3 draws) contraction <= 0.118; out_of_africa in the regime of draw_swap_params (generic, tie variants, zero sets) <= 0.083."""
     ms = models()
     table = load_table()
     groups = []
@@ -716,7 +731,7 @@ def tie_groups(ctx, rng):
         ref = tie_params(random.Random(0), names, 'sizes')[0]
         others = [v for v in TIE_VARIANTS[1:] if tie_params(random.Random(0), names, v)[1] > 0 and tie_params(random.Random(0), names, v)[0] != ref]
         if ctx.quick:
-            # (a 3-population swap group costs 0.2 - 0.9 s: in quick only the 'sizes' vector for those)
+            # (a 3-population swap group costs 0.2 - 1.8 s: in quick only the 'sizes' vector for those, in the short regime; their rates: zero block below)
             variants = ['sizes'] + ([others[rot % len(others)]] if others and P == 2 else [])
             rot += 1
         else:
@@ -725,7 +740,12 @@ def tie_groups(ctx, rng):
             p, forced = tie_params(rng, names, v)
             if forced == 0:
                 continue
-            groups.append(dict(swap_group(e, names, p, rand_ns(rng, P)), tie=v))
+            g = dict(swap_group(e, names, p, rand_ns(rng, P)), tie=v)
+            if ctx.quick and P == 3:
+                # short regime (calibrated 2026-10-04 on the clean tree: 468 groups = every 3-population relabelling x generic / tie variants x 3 draws,
+                # contraction <= 0.092 above the floor); thorough keeps the regime of draw_swap_params
+                g.update(params=shorten(names, g['params']), swapped=shorten(names, g['swapped']), pts=PTS_SHORT[P])
+            groups.append(g)
     seen_a = set()
     for k, e in enumerate(table['nestings']):
         if ctx.quick and e['A'] in seen_a:
@@ -738,6 +758,26 @@ def tie_groups(ctx, rng):
             pa, pb = nest_params(e, rng, wide='tie:' + v)
             groups.append({'kind': 'nest', 'A': e['A'], 'B': e['B'], 'nesting': e['kind'], 'point': e['point'], 'pa': pa, 'pb': pb, 'ns': rand_ns(rng, P), 'pts': PTS[P],
                            'tie': v})
+    zrng = random.Random(ctx.seed + 1501)
+    seen_z, pos = set(), 0
+    for e in table['swaps']:
+        P = len(e['perm'])
+        # (3-population models only: with EVERY rate of a 2-population model zero the asymmetry is ~1e-7 of the largest entry and contracts
+        # slowly - 0.246 seen on the clean tree for anc_sym_mig_size - so that point is left to the 'm0' variant and the zero-migration nestings)
+        if P != 3 or (ctx.quick and e['model'] in seen_z):
+            continue
+        seen_z.add(e['model'])
+        names = list(ms[e['model']].__param_names__)
+        zs = zero_sets(sum(1 for n in names if pclass(n) == 'm'))
+        if not zs:
+            continue
+        if ctx.quick and e['model'] != 'Demographics3D.out_of_africa':
+            singles, pairs = [z for z in zs if '+' not in z], [z for z in zs if '+' in z]
+            zs = [singles[pos % len(singles)]] + ([pairs[pos % len(pairs)]] if pairs else [])
+            pos += 1
+        for v in zs:
+            p = tie_params(zrng, names, v)[0]
+            groups.append(dict(swap_group(e, names, shorten(names, p), rand_ns(zrng, P)), pts=PTS_SHORT[P], tie=v))
     for q, f in ms.items():
         if is_mscore(f) or q in seen:
             continue
@@ -966,7 +1006,9 @@ def run(ctx):
         'calibrated: true symmetries <= 0.13, relabellings that are not symmetries >= 0.35 (typically 1.0)',
         'parameters are sampled inside the documented bounds (seeded); each sampled case is decided exactly by TLC',
         'the non-generic points of the bounds (several parameters of one class exactly equal, one rate exactly 0) are visited by a deterministic block in the regime of the '
-        'swap calibration (nu in [0.5,3], T in [0.02,0.06], m in [0.3,1.5]); all sizes tied means ALL of them, not every pairwise pattern'])
+        'swap calibration (nu in [0.5,3], T in [0.02,0.06], m in [0.3,1.5]; the 3-population groups of the quick tier with T halved at pts 8); all sizes tied means ALL of '
+        'them, not every pairwise pattern; exactly-zero rates: every single rate and every pair for out_of_africa, one single and one pair (position cycling) for the '
+        'other 3-population models in quick, all of them in thorough'])
     groups = gen_groups(ctx, rng)
     traces, verdicts, st = validate(groups)
     # binding demonstration
@@ -999,7 +1041,8 @@ def run(ctx):
                    'time-step scales, boundary groups (per model: integer-valued values as tuple of floats / numpy array of float64 / list with ints, all durations 0 as int and '
                    'as numpy.float64, nu = 1e-2 & m = 0, nu = 100 & m = 10 judged on the fine grid, fractions 1e-3 / 0.999, all-equal values with equal sample sizes, '
                    'durations 3), nesting pairs with every free size / rate / fraction at an end point of its range, tied parameter vectors (exactly equal sizes / '
-                   'durations / rates / selection, one rate exactly 0: swap refinement for every model of the swap table, nestings, full clause set for the other models); '
+                   'durations / rates / selection, one rate exactly 0: swap refinement for every model of the swap table, nestings, full clause set for the other models; '
+                   'named rates exactly 0 - each single rate and each pair - for the 3-population models); '
                    'non-trivial = distinct (group kind, model or pair, nesting point, relabelling)')
     cov['trace_validation'] = {'spec': TRACE_SPEC, 'groups': len(groups), 'groups_by_kind': kinds, 'events': nev, 'model_evaluations': nevals,
                                'tlc_states': st['states'], 'wall_s': round(st['wall'], 1), 'groups_rejected': len(verdicts)}
@@ -1010,11 +1053,13 @@ def run(ctx):
                                'corner_nestings': sum(1 for g in groups if g.get('corner')),
                                'bounds': {'nu': [NU_LO, NU_HI], 'T': [0, T_HI], 'm': [0, M_HI], 'fractions': [FR_LO, FR_HI]}}
     ties = [g for g in groups if g.get('tie')]
-    cov['tied_parameter_vectors'] = {'groups': len(ties), 'by_kind_and_variant': {'%s/%s' % (k, v): sum(1 for g in ties if (g['kind'], g['tie']) == (k, v))
-                                                                                  for k, v in sorted({(g['kind'], g['tie']) for g in ties})},
+    cov['tied_parameter_vectors'] = {'groups': len(ties), 'by_kind_and_variant': {'%s/%s' % (k, v): sum(1 for g in ties if (g['kind'], g['tie'].split(':')[0]) == (k, v))
+                                                                                  for k, v in sorted({(g['kind'], g['tie'].split(':')[0]) for g in ties})},
+                                     'zero_rate_sets_out_of_africa': sorted(g['tie'] for g in ties if g['tie'].startswith('zero:') and g['model'].endswith('out_of_africa')),
                                      'generator': 'random.Random(seed + 1500)', 'site_suffix': '@ties',
                                      'calibration': '2026-10-04, clean tree, 1004 tied swap groups (79 relabellings x 4 variants x 4 draws): contraction <= 0.133 where the '
-                                                    'asymmetry exceeds the floor; 236 groups at round-off (<= 2.3e-14 of the largest entry)'}
+                                                    'asymmetry exceeds the floor; 236 groups at round-off (<= 2.3e-14 of the largest entry); short regime of the 3-population groups (durations halved, pts 8): '
+                                                    '468 generic / tied groups <= 0.092, 330 zero-rate groups <= 0.118; out_of_africa (variable-parameter kernels) <= 0.083'}
     cov['binding_demo'] = {'mutated_traces': len(muts), 'rejected_with_expected_clause': len(muts) - len(missed), 'clauses': sorted({c for _, c in muts})}
     if missed:
         cov['binding_demo']['accepted_mutants_on_a_violating_tree'] = [[t, c, sorted(got)] for t, c, got in missed[:10]]
